@@ -60,6 +60,7 @@ pub struct W2Case {
     pub pools: (usize, usize),
     pub quota: Option<u64>,
     pub init: String,
+    pub rel: crate::scen::relgen::RelStats,
 }
 
 impl W2Case {
@@ -76,6 +77,7 @@ impl W2Case {
             pools: (v["pools"][0].as_u64().unwrap_or(0) as usize, v["pools"][1].as_u64().unwrap_or(0) as usize),
             quota: v.get("quota").and_then(|q| q.as_u64()),
             init: v.get("init").and_then(|s| s.as_str()).unwrap_or("cheapest").to_string(),
+            rel: Default::default(),
         })
     }
 }
@@ -455,7 +457,16 @@ pub fn execute(case: &W2Case, cache_checks: bool, per_insertion: bool) -> crate:
             })));
         }
         let init = make_recreate(&case.init, env.random.clone());
-        let mut current = init.run(&refinement_ctx, InsertionContext::new(problem.clone(), env.clone()));
+        let s0 = InsertionContext::new(problem.clone(), env.clone());
+        if !problem.locks.is_empty() {
+            // C04's premise is a consistent individual: the tours which the solver itself builds from the relations (in
+            // listing order, departing at the earliest time) must satisfy the hard rules before any step is applied
+            let bad = sys::monitor(|| doc_issues_with(model, &s0, true).into_iter().find(|(p, _, _)| p == "C01").map(|(_, r, m)| format!("{r}: {m}")));
+            if let Some(bad) = bad {
+                return sys::monitor(|| W2Out { rejected: Some(format!("relation tours as built by the solver are not consistent ({})", bad.chars().take(40).collect::<String>())), ..Default::default() });
+            }
+        }
+        let mut current = init.run(&refinement_ctx, s0);
         let mut out = sys::monitor(W2Out::default);
         let init_issues = sys::monitor(|| {
             let mut v: Vec<(String, String, String)> =
@@ -501,7 +512,7 @@ pub fn execute(case: &W2Case, cache_checks: bool, per_insertion: bool) -> crate:
                     r.issues = check_inv(child, pending_allowed).into_iter().map(|i| ("C04".to_string(), i.rule.to_string(), i.msg)).collect();
                     r.issues.extend(doc_issues_with(model, child, pending_allowed));
                     let bad = r.issues.iter().any(|(p, ru, _)| p == "C01" || p == "C04" || (p == "C02" && C02_RULES_IN_C04.contains(&ru.as_str())));
-                    if bad && std::env::var_os("VSIM_DUMP").is_some() {
+                    if (bad && std::env::var_os("VSIM_DUMP").is_some()) || std::env::var_os("VSIM_DUMP_ALL").is_some() {
                         r.doc = write_ctx_with(child, pending_allowed).ok();
                     }
                 }
@@ -564,7 +575,6 @@ pub struct W2Scenario {
 fn allowed_features() -> gen::problem::Features {
     let mut allowed = gen::problem::Features::all();
     allowed.req_breaks = false;
-    allowed.relations = false;
     allowed
 }
 
@@ -605,7 +615,11 @@ pub fn make_case(seed: u64, tier: Tier) -> (W2Case, gen::problem::Features) {
     let pools = *p.pick(&[(0usize, 0usize), (0, 0), (1, 1), (1, 4), (2, 2), (4, 1), (3, 2)]);
     let quota = if p.chance(0.15) { Some(p.range(0, 400) as u64) } else { None };
     let init = p.pick(&RECREATES).to_string();
-    (W2Case { problem: g.problem, matrices: g.matrices, spec, script, pools, quota, init }, g.features)
+    // user relations (pinning): derived from a first solve so that they are consistent with the constraints; the initial
+    // individual of the script then starts from the tours the solver builds from them
+    let mut problem = g.problem;
+    let rel = if g.features.relations { crate::scen::relgen::augment(seed, &mut problem, &g.matrices) } else { Default::default() };
+    (W2Case { problem, matrices: g.matrices, spec, script, pools, quota, init, rel }, g.features)
 }
 
 impl W2Scenario {
@@ -637,6 +651,8 @@ impl W2Scenario {
                 rec.count(&format!("features.{n}"), 1);
             }
         }
+        case.rel.count_into(&mut rec);
+        rec.count("relations.in_problem", case.problem["plan"].get("relations").and_then(|r| r.as_array()).map_or(0, |r| r.len()) as u64);
         rec.count(&format!("scheduler.strategy.{}", case.spec.strategy.name()), 1);
         rec.count("scheduler.fork_joins", out.sched.fork_joins);
         rec.count("scheduler.nontrivial_fork_joins", out.sched.nontrivial);
@@ -659,6 +675,19 @@ impl W2Scenario {
                 rec.count("outcome.panics", 1);
             }
             Ok(o) => {
+                if std::env::var_os("VSIM_DUMP_ALL").is_some() {
+                    // triage aid: the tours after every step
+                    let brief = |d: &str| -> String {
+                        serde_json::from_str::<Value>(d).ok().map(|v| {
+                            let tours: Vec<String> = v["tours"].as_array().into_iter().flatten().map(|t| format!("{}/{}:{}", t["vehicleId"].as_str().unwrap_or(""), t["shiftIndex"], t["stops"].as_array().into_iter().flatten().flat_map(|s| s["activities"].as_array().into_iter().flatten()).filter_map(|a| a["jobId"].as_str()).collect::<Vec<_>>().join(" "))).collect();
+                            let una: Vec<&str> = v["unassigned"].as_array().into_iter().flatten().filter_map(|u| u["jobId"].as_str()).collect();
+                            format!("{} || unassigned: {}", tours.join(" | "), una.join(" "))
+                        }).unwrap_or_default()
+                    };
+                    for s in &o.steps {
+                        crate::say!("STEP {} -> {}", s.op, s.doc.as_deref().map(brief).unwrap_or_default());
+                    }
+                }
                 if std::env::var_os("VSIM_DUMP").is_some() {
                     let doc = o.init_doc.clone().or_else(|| o.steps.iter().find_map(|s| s.doc.clone()));
                     let issues: Vec<String> = o.init_issues.iter().chain(o.steps.iter().flat_map(|s| s.issues.iter())).filter(|(p, _, _)| p != "C03").map(|(p, r, m)| format!("{p}:{r} {m}")).collect();
@@ -829,7 +858,7 @@ impl Scenario for W2Scenario {
             assumptions: vec![
                 "leaf tasks of one fork-join are atomic w.r.t. each other".into(),
                 "operators are built through their public constructors with the parameter ranges of the shipped default heuristic".into(),
-                "problems without relations/locks (pinning is exercised in the relations scenario)".into(),
+                "user relations (pinning) are derived from a first solve of the same problem: only relation sets whose own tours are feasible are generated, as the documentation requires".into(),
             ],
             components_real: vec!["rosomaxa", "vrp-core (all operators)", "vrp-pragmatic (reader, writer)"],
             components_stub: vec!["rayon (plan-driven executor, H1)", "clock", "std hash keys", "heap addresses", "worker RNG streams (H2)"],
